@@ -205,6 +205,38 @@ def rule_filter(ctx: Ctx):
             n_skip += 1
             if not any(c == f"isinstance({CIT}, ReferenceCitation)" and o for c, o in conds):
                 ok4, why4 = False, f"a path drops the current citation although it is not known to be a ReferenceCitation (conditions {conds})"
+    # R-C03-9: an overlap that involves a reference citation never survives.  On a path where the overlap test held and the last kept citation is
+    # known to be a reference, that reference is popped (or the current one skipped); where the current citation is known to be a reference and
+    # the last is not, the current one is skipped.  (Overlaps between two non-references are parallel citations sharing a case name; the
+    # property's quantifier lets those stand.)
+    ok9, why9, n9 = True, "", 0
+    OV = None
+    for st_ in stmts_local(loop.body):
+        if isinstance(st_, ast.Assign) and isinstance(st_.value, ast.Call) and dotted(st_.value.func) == "overlapping_citations" and isinstance(st_.targets[0], ast.Name):
+            OV = st_.targets[0].id
+    for p in paths:
+        conds = [(norm(ev[1]), ev[2]) for ev in p.events if ev[0] == "cond"]
+        overl = any((c == OV or c.startswith("overlapping_citations(")) and o for c, o in conds) if OV or True else False
+        if not overl:
+            continue
+        last_ref = any(c in {f"isinstance({l}, ReferenceCitation)" for l in LASTS} and o for c, o in conds)
+        cur_ref = any(c == f"isinstance({CIT}, ReferenceCitation)" and o for c, o in conds)
+        if not (last_ref or cur_ref):
+            continue
+        n9 += 1
+        popped = appended = False
+        for ev in p.events:
+            if ev[0] == "stmt" or ev[0] == "loop":
+                for n in ast.walk(ev[1]):
+                    if isinstance(n, ast.Call) and isinstance(n.func, ast.Attribute) and norm(n.func.value) == OUT:
+                        popped = popped or n.func.attr == "pop"
+                        appended = appended or n.func.attr == "append"
+        if last_ref and appended and not popped:
+            ok9, why9 = False, f"the current citation is appended next to an overlapping reference citation that stays in the list (conditions {conds[-5:]})"
+        if cur_ref and not last_ref and appended:
+            ok9, why9 = False, f"an overlapping reference citation is appended (conditions {conds[-5:]})"
+    ctx.ob("R-C03-9", f"{q}/overlap-with-a-reference-is-resolved", ok9 and n9 >= 2,
+           f"on all {n9} paths with an overlap involving a reference citation one of the two is removed" if ok9 else why9, node=loop, mod=m)
     ctx.ob("R-C03-2", f"{q}/output-is-subsequence-of-sorted", ok2 and n_app > 0,
            f"every path appends the loop variable at most once at the tail, after any tail pops ({len(paths)} paths, {n_app} appending, {n_pop} pops): "
            "the result is a sub-sequence of the sorted list, hence ordered by K" if ok2 else why2, node=loop, mod=m)
